@@ -520,3 +520,58 @@ mutant('C20', 'self-locking-scan-skips-first-gear', PT, "        for element in 
 mutant('C20', 'self-locking-any-gear', PT, "            if isinstance(element, WormGear):\n                if element.self_locking:", "            if hasattr(element, 'helix_angle'):\n                if True:", 'C20.locking')
 mutant('C20', 'self-locking-live-property', PT, "        return self.__self_locking", "        return any(isinstance(e, WormGear) and e.self_locking for e in self.__elements)", 'C20.frozen')
 mutant('C20', 'elements-setter-added', PT, "    @property\n    def time(self) -> list[Time]:", "    @elements.setter\n    def elements(self, elements):\n        self.__elements = tuple(elements)\n\n    @property\n    def time(self) -> list[Time]:", 'C20.frozen')
+
+SC = 'gearpy/utils/stop_condition/stop_condition.py'
+OPF = 'gearpy/utils/stop_condition/operator.py'
+ENC = 'gearpy/sensors/absolute_rotary_encoder.py'
+TAC = 'gearpy/sensors/tachometer.py'
+AMP = 'gearpy/sensors/amperometer.py'
+STEP_TAIL = """            self._compute_powertrain_variables(motor_control=motor_control)
+            if stop_condition is not None:
+                if stop_condition.check_condition():
+                    break
+"""
+# ------------------------------------------------------------------------------------------ C16
+mutant('C16', 'check-before-instant-computed', SV, "            self._time_integration(time_discretization=time_discretization)\n" + STEP_TAIL, "            stop = stop_condition is not None and stop_condition.check_condition()\n            self._time_integration(time_discretization=time_discretization)\n            self._compute_powertrain_variables(motor_control=motor_control)\n            if stop:\n                break\n", 'C16.place')
+mutant('C16', 'check-before-record', SV, STEP_TAIL + "\n    def _compute_powertrain_inertia", """            self._compute_powertrain_variables(motor_control=motor_control, stop_condition=stop_condition)
+            if self.__stop:
+                break
+
+    def _compute_powertrain_inertia""", None) if False else None
+mutant('C16', 'never-stops', SV, "                if stop_condition.check_condition():\n                    break", "                if stop_condition.check_condition():\n                    pass", 'C16.place')
+mutant('C16', 'stops-when-false', SV, "                if stop_condition.check_condition():\n                    break", "                if not stop_condition.check_condition():\n                    break", 'C16.place')
+mutant('C16', 'checked-twice', SV, "                if stop_condition.check_condition():\n                    break", "                if stop_condition.check_condition() and stop_condition.check_condition():\n                    break", 'C16.place')
+mutant('C16', 'checked-at-time-zero', SV, "            self.__powertrain.update_time(initial_time)\n            self._compute_powertrain_variables(motor_control=motor_control)\n", "            self.__powertrain.update_time(initial_time)\n            self._compute_powertrain_variables(motor_control=motor_control)\n            if stop_condition is not None and stop_condition.check_condition():\n                return\n", 'C16.place')
+mutant('C16', 'record-after-break-check', SV, PIPE + "\n", PIPE.replace("        self._update_time_variables()\n", "") + "\n", 'C16') if False else None
+mutant('C16', 'greater-than-includes-equal', OPF, "        return sensor_value > threshold", "        return sensor_value >= threshold", 'C16.ops')
+mutant('C16', 'less-than-operands-swapped', OPF, "        return sensor_value < threshold", "        return threshold < sensor_value", 'C16.ops')
+mutant('C16', 'equal-is-not-equal', OPF, "        return sensor_value == threshold", "        return sensor_value != threshold", 'C16.ops')
+mutant('C16', 'attribute-binding-swapped', SC, "    greater_than = GreaterThan()", "    greater_than = GreaterThanOrEqualTo()", 'C16.ops')
+mutant('C16', 'condition-latches', SC, "        return self.operator(\n            sensor_value=self.sensor.get_value(),\n            threshold=self.threshold\n        )", "        if getattr(self, '_fired', False):\n            return True\n        self._fired = self.operator(\n            sensor_value=self.sensor.get_value(),\n            threshold=self.threshold\n        )\n        return self._fired", 'C16.check')
+mutant('C16', 'condition-args-swapped', SC, "            sensor_value=self.sensor.get_value(),\n            threshold=self.threshold", "            sensor_value=self.threshold,\n            threshold=self.sensor.get_value()", 'C16.check')
+mutant('C16', 'encoder-reads-speed', ENC, "            return self.__target.angular_position\n", "            return self.__target.angular_speed\n", 'C16.sensors')
+mutant('C16', 'tachometer-value-not-converted', TAC, "            return self.__target.angular_speed.to(unit).value", "            return self.__target.angular_speed.value", 'C16.sensors')
+mutant('C16', 'amperometer-caches', AMP, "            return self.__target.electric_current\n", "            if not hasattr(self, '_last'):\n                self._last = self.__target.electric_current\n            return self._last\n", 'C16.sensors')
+benign('C16', 'single-if', SV, "            if stop_condition is not None:\n                if stop_condition.check_condition():\n                    break", "            if stop_condition is not None and stop_condition.check_condition():\n                break")
+benign('C16', 'operator-flipped-spelling', OPF, "        return sensor_value > threshold", "        return threshold < sensor_value")
+
+FW = 'gearpy/mechanical_objects/flywheel.py'
+EXP = 'gearpy/utils/export.py'
+# ------------------------------------------------------------------------------------------ C17
+mutant('C17', 'spur-advertises-bending-without-face-width', SG, "            if self.bending_stress_is_computable:\n                self.time_variables['bending stress'] = []", "            if True:\n                self.time_variables['bending stress'] = []", 'C17.guards')
+mutant('C17', 'motor-current-key-always', DC, "        if self.electric_current_is_computable:\n            self.__electric_current = None\n            self.time_variables['electric current'] = []", "        self.__electric_current = None\n        self.time_variables['electric current'] = []", 'C17.guards')
+mutant('C17', 'worm-force-not-recorded', WG, "        if self.tangential_force_is_computable:\n            self.time_variables['tangential force'].append(", "        if False:\n            self.time_variables['tangential force'].append(", 'C17.guards')
+mutant('C17', 'torque-appended-twice', MB, "        self.__time_variables['torque'].append(self.__torque)\n", "        self.__time_variables['torque'].append(self.__torque)\n        self.__time_variables['torque'].append(self.__torque)\n", 'C17.one')
+mutant('C17', 'driving-torque-list-gets-load', MB, "        self.__time_variables['driving torque'].append(self.__driving_torque)", "        self.__time_variables['driving torque'].append(self.__load_torque)", 'C17.one')
+mutant('C17', 'pwm-recorded-only-with-current', DC, "        if 'pwm' not in self.time_variables.keys():", "        if not self.electric_current_is_computable:\n            pass\n        elif 'pwm' not in self.time_variables.keys():", 'C17.guards')
+mutant('C17', 'record-skips-motor', SV, "        for element in self.__powertrain.elements:\n            element.update_time_variables()", "        for element in self.__powertrain.elements[1:]:\n            element.update_time_variables()", 'C17.pairing')
+mutant('C17', 'record-only-when-unlocked', SV, "        self._update_time_variables()\n", "        if not self.__powertrain_is_locked:\n            self._update_time_variables()\n", 'C17.pairing')
+mutant('C17', 'record-twice', SV, "        self._compute_electric_current()\n        self._update_time_variables()\n", "        self._update_time_variables()\n        self._compute_electric_current()\n        self._update_time_variables()\n", 'C17.pairing')
+mutant('C17', 'stress-computed-only-with-contact', SV, "                if element.bending_stress_is_computable:\n                    element.compute_bending_stress()\n                    if element.contact_stress_is_computable:\n                        element.compute_contact_stress()", "                if element.bending_stress_is_computable and element.contact_stress_is_computable:\n                    element.compute_bending_stress()\n                    element.compute_contact_stress()", 'C17.computed')
+mutant('C17', 'force-not-computed-for-worm', SV, "            if isinstance(element, GearBase | WormGear):\n                if element.tangential_force_is_computable:", "            if isinstance(element, GearBase):\n                if element.tangential_force_is_computable:", 'C17.computed')
+mutant('C17', 'speed-setter-accepts-anything', MB, "        if not isinstance(angular_speed, AngularSpeed):", "        if False:", 'C17.kind')
+mutant('C17', 'reset-shared-list', PT, "            for variable in element.time_variables.keys():\n                element.time_variables[variable] = []", "            element.time_variables.update(dict.fromkeys(element.time_variables, []))", 'C17.reset')
+mutant('C17', 'export-mapping-misses-current', EXP, "        'electric current': current_unit,\n", "", 'C17.export')
+mutant('C17', 'contact-flag-drops-face-width+flat-keys', MB, "return (self.__module is not None) and \\\n            (self.__face_width is not None) and \\\n            (self.__elastic_modulus is not None)", "return (self.__module is not None) and \\\n            (self.__elastic_modulus is not None)", None) if False else None
+benign('C17', 'recorder-uses-properties', MB, "        self.__time_variables['torque'].append(self.__torque)\n", "        self.__time_variables['torque'].append(self.torque)\n")
+benign('C17', 'worm-recorder-guard-inlined', WG, "        if self.tangential_force_is_computable:\n            self.time_variables['tangential force'].append(", "        if self.reference_diameter is not None:\n            self.time_variables['tangential force'].append(")
